@@ -3,6 +3,7 @@ import json, os
 from .common import *
 from vlib import sym
 from vlib.transcript import rpo
+from vlib.mir import rv_locals
 
 META = dict(
     technique="static analysis: exhaustive opcode dispatch, compiler/interpreter immediate-layout agreement, numeric-operator table against the Wasm specification, no-panic arithmetic over compiler MIR",
@@ -296,3 +297,176 @@ def run(ck):
         bad = [a for a in asserts if not (a[0] == "RemainderByZero" or (a[0] == "Overflow" and ("Shl" in a[1] or "Shr" in a[1]) and "modulus" in sp))]
         ck.ob("PANIC", "interpreter:" + n, "no-panicking-arithmetic", not bad, "no overflow/division assertion outside the masked shift" if not bad else "panicking arithmetic: %s" % bad[:2], rc.loc(tb))
     ck.floor("TAB", "numeric instructions compared with the specification", nn, 64)
+
+    memory_rules(ck, c, rc, rtab)
+
+
+# memory instructions (WebAssembly 1.0, 4.4.4): N bits are read at ea = base (u32) + offset (u32) as a 33-bit sum, trap if
+# ea + N/8 > |mem|; loads extend with the signedness of the instruction; stores wrap the value to N bits (low bytes, little endian)
+MEM_LOADS = {
+    "I32Load": (4, None, "i32"), "I64Load": (8, None, "i64"),
+    "I32Load8S": (1, "i", "i32"), "I32Load8U": (1, "u", "i32"), "I32Load16S": (2, "i", "i32"), "I32Load16U": (2, "u", "i32"),
+    "I64Load8S": (1, "i", "i64"), "I64Load8U": (1, "u", "i64"), "I64Load16S": (2, "i", "i64"), "I64Load16U": (2, "u", "i64"),
+    "I64Load32S": (4, "i", "i64"), "I64Load32U": (4, "u", "i64"),
+}
+MEM_STORES = {
+    "I32Store": ("short", 4), "I64Store": ("long", 8), "I32Store8": ("short", 1), "I32Store16": ("short", 2),
+    "I64Store8": ("long", 1), "I64Store16": ("long", 2), "I64Store32": ("long", 4),
+}
+FULL = {"short": 4, "long": 8}
+
+
+def addr_slice(c, f, op, depth=0, acc=None):
+    """backward walk from an address operand: collects (kind, detail) facts about how it is computed,
+    following returns of crate-local helpers"""
+    acc = acc if acc is not None else dict(bins=[], calls=[], casts=[], leaves=set())
+    seen = set()
+    p = op_place(op)
+    work = [p[0]] if p else []
+    while work:
+        l = work.pop()
+        if l in seen:
+            continue
+        seen.add(l)
+        if 1 <= l <= f.b["argc"]:
+            acc["leaves"].add("arg")
+        for (b, si, it) in f.defs().get(l, []):
+            if si == "t":
+                t = it
+                pth = t["f"].get("path", "?")
+                if pth.startswith("concordium_wasm::machine::") and depth < 3 and c.get_all(pth):
+                    if re.search(r"machine::(get_u32|get_local|get_local_mut|get_u16|get_i32)$", pth):
+                        acc["leaves"].add(pth.split("::")[-1])
+                        continue
+                    g = Fn(c.get_all(pth)[0])
+                    acc["calls"].append(pth.split("::")[-1])
+                    for rb in g.reachable():
+                        if g.term(rb)["k"] == "return":
+                            addr_slice(c, g, {"m": [0, []]}, depth + 1, acc)
+                else:
+                    acc["calls"].append(pth)
+                    for a in t["args"]:
+                        pa = op_place(a)
+                        if pa:
+                            work.append(pa[0])
+                continue
+            rv = it["rv"]
+            if rv["k"] == "bin":
+                tys = []
+                for o in (rv["a"], rv["b"]):
+                    po = op_place(o)
+                    k = op_const(o)
+                    tys.append(f.b["locals"][po[0]] if po else (k or {}).get("ty"))
+                acc["bins"].append((rv["op"], tuple(tys)))
+            if rv["k"] == "cast":
+                acc["casts"].append(rv["ty"])
+            for x in rv_locals(rv):
+                work.append(x)
+    return acc
+
+
+def memory_rules(ck, c, rc, rtab):
+    nm = 0
+    # effective address
+    for name in ("memory_load", "memory_store"):
+        f = getfn(ck, "sc", W, W + "::machine::" + name)
+        if not f:
+            continue
+        rets = []
+        for bi in f.reachable():
+            for st in f.stmts(bi):
+                if st.get("lhs") == [0, []] and st["rv"].get("k") == "agg" and st["rv"].get("agg") == "tuple":
+                    rets.append(st["rv"]["ops"][1])
+        if not ck.anchor(len(rets) >= 1, "TAB", f.path, "returns (register, position)"):
+            continue
+        for op in rets:
+            a = addr_slice(c, f, op)
+            adds = [b for b in a["bins"] if b[0].startswith("Add")]
+            WIDE = ("usize", "u64", "i64", "u128", "i128")
+            narrow = [b for b in a["bins"] if b[0] not in ("Add", "AddWithOverflow", "AddUnchecked") or any(t not in WIDE for t in b[1])]
+            wraps = [x for x in a["calls"] if re.search(r"num::<impl (u|i)(8|16|32)>::|wrapping_|overflowing_|saturating_", x)]
+            ok = len(adds) == 1 and not narrow and not wraps and any(t in WIDE for t in a["casts"]) and {"get_u32", "get_local"} <= a["leaves"]
+            nm += 1
+            ck.ob("TAB", f.path, "effective-address-33-bit", ok,
+                  "ea = (base as u32 as usize) + (offset as usize): one addition, in usize, of the dynamic base and the static offset" if ok else
+                  "the effective address is not the full-width sum base + offset (additions %s, other/narrow arithmetic %s, calls %s): addresses >= 2^32 must trap, not wrap" % (adds, narrow, wraps), f.loc())
+    # readers: the width that is bounds-checked is the width that is read
+    for nme, width in (("read_u16", 2), ("read_i16", 2), ("read_u32", 4), ("read_i32", 4), ("read_i64", 8)):
+        f = getfn(ck, "sc", W, W + "::machine::" + nme)
+        if not f:
+            continue
+        oks = []
+        for cx in rules.comparisons(f):
+            rel, d = rules.cmp_rejects(f, cx)
+            oa = f.origins(cx["a"], deep=True)
+            ob = f.origins(cx["b"], deep=True)
+            if rel == "Gt" and ("arg", 2) in oa and ("lit", width) in oa and ("arg", 1) in ob and ("arg", 2) not in ob:
+                oks.append(cx)
+            elif rel == "Lt" and ("arg", 2) in ob and ("lit", width) in ob and ("arg", 1) in oa and ("arg", 2) not in oa:
+                oks.append(cx)
+        rd = f.calls(r"ptr::const_ptr::<impl \*const T>::read_unaligned$|ptr::read_unaligned$")
+        tys = [" ".join(t["f"].get("gargs") or []) for (_, t) in rd]
+        wty = {"u16": 2, "i16": 2, "u32": 4, "i32": 4, "i64": 8, "u64": 8}
+        tw = [wty.get(re.sub(r"^\*const ", "", x).strip(), None) for x in tys]
+        nm += 1
+        ok = len(oks) == 1 and len(rd) == 1 and tw == [width] and all(f.dominates(oks[0]["bb"], bi) for (bi, _) in rd)
+        ck.ob("BOUNDS", f.path, "checked-width-is-read-width", ok,
+              "rejects when pos + %d > len, then reads %d bytes" % (width, width) if ok else
+              "bounds test and unaligned read disagree or are missing: rejecting tests on pos+%d: %d, reads of %s bytes" % (width, len(oks), tw), f.loc())
+    for nme in ("read_u8", "read_i8"):
+        f = getfn(ck, "sc", W, W + "::machine::" + nme)
+        if f:
+            g = f.calls(r"slice::<impl \[T\]>::get$")
+            o = f.origins(g[0][1]["args"][1], deep=True) if g else set()
+            nm += 1
+            ck.ob("BOUNDS", f.path, "checked-get", len(g) == 1 and ("arg", 2) in o and not any(a[0] in ("bin", "lit") for a in o) and not f.calls(r"get_unchecked|read_unaligned"),
+                  "reads bytes.get(pos): None (out of bounds) becomes the trap", f.loc())
+    f = getfn(ck, "sc", W, W + "::machine::write_memory_at")
+    if f:
+        oks = []
+        for cx in rules.comparisons(f):
+            rel, d = rules.cmp_rejects(f, cx)
+            oa = f.origins(cx["a"], deep=True)
+            ob = f.origins(cx["b"], deep=True)
+            if rel == "Gt" and ("arg", 2) in oa and ("arg", 3) in oa and ("arg", 1) in ob:
+                oks.append(cx)
+        idx = f.calls(r"ops::IndexMut::index_mut$|slice::<impl \[T\]>::get_mut$")
+        nm += 1
+        ck.ob("BOUNDS", f.path, "end-checked-before-slicing", len(oks) == 1 and len(idx) >= 1 and all(f.dominates(oks[0]["bb"], bi) for (bi, _) in idx),
+              "rejects when pos + bytes.len() > memory.len() before memory[pos..end] is written", f.loc())
+    # arms
+    for n, (width, sign, target) in sorted(MEM_LOADS.items()):
+        if not ck.anchor(n in rtab, "TAB", "memory:" + n, "interpreter arm exists"):
+            continue
+        _, reg, tb = rtab[n]
+        readers = [t["f"]["path"].split("::")[-1] for b2 in sorted(reg) for t in [rc.term(b2)] if t["k"] == "call" and re.search(r"machine::read_[ui]\d+$", t["f"].get("path", ""))]
+        froms = [(t["f"].get("gargs") or ["?", "?"])[-1] for b2 in sorted(reg) for t in [rc.term(b2)] if t["k"] == "call" and re.search(r"convert::From::from$", t["f"].get("path", "")) and "StackValue" in (t["f"].get("self") or "")]
+        want = ["read_%s%d" % (s, width * 8) for s in (("i", "u") if sign is None else (sign,))]
+        ok = len(readers) == 1 and readers[0] in want and froms == [target]
+        nm += 1
+        ck.ob("TAB", "interpreter:" + n, "load-width-sign-target", ok, "reads with %s and stores an %s (specification: %d bytes, %s, result %s)" %
+              (readers, froms, width, {"i": "sign-extended", "u": "zero-extended", None: "full width"}[sign], target), rc.loc(tb))
+    for n, (field, width) in sorted(MEM_STORES.items()):
+        if not ck.anchor(n in rtab, "TAB", "memory:" + n, "interpreter arm exists"):
+            continue
+        _, reg, tb = rtab[n]
+        wr = [(b2, rc.term(b2)) for b2 in sorted(reg) if rc.term(b2)["k"] == "call" and re.search(r"machine::write_memory_at$", rc.term(b2)["f"].get("path", ""))]
+        fields, ends, le = set(), [], False
+        for b2 in sorted(reg):
+            for st in rc.stmts(b2):
+                rv = st.get("rv", {})
+                if rv.get("k") == "use":
+                    pl = op_place(rv["a"])
+                    if pl and pl[1] and str(pl[1][-1]).split(":")[-1] in ("short", "long"):
+                        fields.add(str(pl[1][-1]).split(":")[-1])
+                if rv.get("k") == "agg" and rv.get("agg") == "adt" and rv.get("adt", "").startswith("std::ops::Range"):
+                    ends.append((rv["adt"].split("::")[-1], [const_int(op_const(o)) if op_const(o) else None for o in rv["ops"]]))
+            t = rc.term(b2)
+            if t["k"] == "call" and re.search(r"num::<impl i(32|64)>::to_le_bytes$", t["f"].get("path", "")):
+                le = True
+        got = FULL.get(next(iter(fields)), None) if len(fields) == 1 and not ends else (ends[0][1][0] if len(ends) == 1 and ends[0][0] == "RangeTo" else None)
+        ok = len(wr) == 1 and fields == {field} and le and got == width
+        nm += 1
+        ck.ob("TAB", "interpreter:" + n, "store-field-width", ok, "writes the low %s bytes (little endian) of the %s view; specification: %d bytes of %s" %
+              (got, sorted(fields), width, field), rc.loc(tb))
+    ck.floor("TAB", "memory instruction obligations", nm, 29)
